@@ -10,7 +10,7 @@ from engine.ctx import exc_label
 FUNCTIONS = ['bycycle.features.burst.compute_amp_fraction', 'bycycle.features.burst.compute_amp_consistency',
              'bycycle.features.burst.compute_period_consistency', 'bycycle.features.burst.compute_monotonicity',
              'bycycle.features.burst.compute_burst_features']
-BOUNDS = {'quick': 'amp_fraction rows 1..6; amp/period consistency rows 1..5, both centrings, directions both/next/last; monotonicity N <= 7, 1..2 cycles',
+BOUNDS = {'quick': 'amp_fraction rows 1..6; amp/period consistency rows 1..5, both centrings, directions both/next/last; monotonicity N <= 7, 1..2 cycles (and int16 / uint8 signals, every value of the type, N = 4)',
           'thorough': 'amp_fraction rows 1..8; amp consistency rows 1..6, period consistency rows 1..7; monotonicity N <= 9, 1..3 cycles'}
 OUTSIDE = 'longer tables; IEEE rounding of ratios and means; NaN/inf input cells'
 STUBS = []
@@ -39,6 +39,12 @@ def configs(tier):
                 continue
             for centre in ('peak', 'trough'):
                 out.append({'fn': 'monotonicity', 'n': n, 'rows': rows, 'centre': centre})
+    # recordings stored as machine integers (raw ADC counts): sample differences must not wrap around
+    for dt in ('int16', 'uint8'):
+        for centre in ('peak', 'trough'):
+            out.append({'fn': 'monotonicity', 'n': 4, 'rows': 1, 'centre': centre, 'dtype': dt})
+            if not q:
+                out.append({'fn': 'monotonicity', 'n': 6, 'rows': 2, 'centre': centre, 'dtype': dt})
     return out
 
 
@@ -188,7 +194,11 @@ def run(ctx, cfg):
         return
     if fn == 'monotonicity':
         n, centre = cfg['n'], cfg['centre']
-        x = [ctx.real('x%d' % i) for i in range(n)]
+        if cfg.get('dtype'):
+            x, sig = ctx.int_signal(['x%d' % i for i in range(n)], cfg['dtype'])
+        else:
+            x = [ctx.real('x%d' % i) for i in range(n)]
+            sig = np.array(list(x), dtype=float)
         k = 2 * rows + 1
         ps = [ctx.integer('p%d' % j) for j in range(k)]
         ctx.assume(ps[0] >= 0)
@@ -201,7 +211,6 @@ def run(ctx, cfg):
                 'sample_' + cen: [pos[2 * r + 1] for r in range(rows)],
                 'sample_next_' + side: [pos[2 * r + 2] for r in range(rows)]}
         df = pd.DataFrame(cols)
-        sig = np.array(list(x), dtype=float)
         try:
             got = ctx.tolist(fb.compute_monotonicity(df, sig))
         except Exception as e:
